@@ -147,6 +147,33 @@ pub fn run(rec: &mut Recorder, w: &mut World, tier: &str, seed: u64) {
         compare(rec, w, k, &shadow, None, &descr, "kept-role-manager-handed-back");
         rec.nontrivial_case(&descr.join("|"));
     } }
+    // (1b) set_role_manager while a stored grouping rule cannot be linked (the rebuild fails), the bad rule removed
+    //      afterwards and the history continued: the enforcer must not stay split between two managers
+    //      (one role definition, the bad rule last: a failed rebuild has then linked every other stored rule; with
+    //      more definitions the later ones stay unlinked after the reported failure, which is not this property's concern)
+    for k in fam.iter().filter(|k| k.g.len() == 1 && k.g[0].1 == 2) { for _ in 0..n_dir.max(4) {
+        rec.begin();
+        let mut shadow = gen_lines(&mut rng, k);
+        let m = model_of(k, E_ALLOW, false, "", false);
+        if new_enforcer(rec, w, &m, "memory", &shadow, "", false) != "ok" { continue; }
+        let gk = k.g[0].0.clone();
+        let mut descr = vec![format!("start {} with {:?}", k.name, shadow)];
+        let good = rng.pick(&k.links[0]).clone();
+        let o = rec.exec(w, &MOp::AddM("g".into(), gk.clone(), vec![good.clone(), sv(&["zz"])]).line());
+        descr.push(format!("add_named_grouping_policies([{:?}, [zz]]) -> {}", good, o));
+        descr.push(format!("set_role_manager(fresh) -> {}", rec.exec(w, "e.setrm")));
+        descr.push(format!("remove [zz] -> {}", rec.exec(w, &MOp::Rm("g".into(), gk.clone(), sv(&["zz"])).line())));
+        for _ in 0..1 + rng.below(3) {
+            let r = rng.pick(&k.links[0]).clone();
+            let o = rec.exec(w, &MOp::Add("g".into(), gk.clone(), r.clone()).line());
+            descr.push(format!("add {:?} -> {}", r, o));
+        }
+        // the shadow store is whatever the enforcer now lists
+        let pol = rec.exec(w, "e.pol"); let parts: Vec<&str> = pol.split(' ').collect();
+        shadow = dec_lists(parts[0]).into_iter().chain(dec_lists(parts[1]).into_iter()).collect();
+        compare(rec, w, k, &shadow, None, &descr, "set-role-manager-with-failing-rebuild");
+        rec.nontrivial_case(&descr.join("|"));
+    } }
     // (2) a function registered again under the same name
     let kf = fam.iter().find(|k| k.name == "acl-user-function").unwrap().clone();
     for a in ["eq", "ne", "true"] { for bimp in ["eq", "ne", "true"] { for _ in 0..(n_dir / 6).max(1) {
